@@ -74,6 +74,14 @@ def units(rng, tier):
         p = {"keep": rng.random() < 0.6, "k": rng.choice([1, 2, 2, 3, 3, 4, 5])}
         p.update(gen.with_format(rng, vals, rng.choice(["list", "dict_str", "dict_int"])))
         us.append({"kind": "ckk_nodes", "params": p, "cmp": "nodes", "family": "ckk-search-nodes/" + fam})
+    # the SNP / RNP search itself: every sub-collection pulled from the inclusion/exclusion tree, in order (generator method wrapped on
+    # the class), compared with the traced model (Model/SNPTrace.v, result proved equal to snp / rnp)
+    for _ in range(300 if tier == "quick" else 4000):
+        vals, fam = gen.values(rng, nmax=8, vmax=2 ** 40)
+        a = rng.choice(["snp", "snp", "rnp"])
+        p = {"algo": a, "keep": rng.random() < 0.6, "k": rng.choice([2, 3, 3, 4, 5]) if a == "snp" else rng.choice([2, 3, 4, 5])}
+        p.update(gen.with_format(rng, vals[:8], rng.choice(["list", "dict_str", "dict_int"])))
+        us.append({"kind": "snp_trace", "params": p, "cmp": "trace", "family": a + "-search-trace/" + fam})
     for vals, k in HARD:
         for a in ("dp", "cg", "ckk", "snp", "rnp", "ilp"):
             v = vals[:6] if a == "dp" else vals
@@ -109,6 +117,8 @@ def judge_requests(u, impl, model):
     p = u["params"]
     if u["kind"] == "ckk_nodes":
         return [("py", None, f"ckk did not complete: {impl['exc']} on {p}")] if "exc" in impl else []
+    if u["kind"] == "snp_trace":
+        return []
     a = p["algo"]
     o, ok = p.get("objective", [2, 0])
     desc = f"{a}(numbins={p['k']}, items={UN.short(p['vals'], 150)}, objective {o}/{ok}, switches {p.get('flags', '-')}, format {p['fmt']}, output {p['out']})"
